@@ -220,6 +220,42 @@ def requeue_before_exit(r: Report, rid: str, fn: FuncInfo, queue_text: str, extr
             g.succ[nid] = sv
     r.check(ok, rid, f"{fn.qualname}#requeue", "an exit is reachable after skipping frames without re-queueing them: "
             + " -> ".join(repr(g.nodes[p]) for p in witness[-4:]), loc=fn.loc)
+    # every skip (`continue` of the receive loop) must first remember the frame in the list that is re-queued; the loop is only left by return/raise
+    loops = [n for n in walk_no_nested(fn.node) if isinstance(n, ast.While)]
+    if len(loops) != 1:
+        raise AnalysisError(f"{fn.qualname}: expected exactly one receive loop")
+    lists = {ast.unparse(l.ast.iter) for l in g.nodes.values() if l.id in req}
+    for c in [n for n in ast.walk(loops[0]) if isinstance(n, ast.Continue)]:
+        blk = None
+        for cand in ast.walk(loops[0]):
+            if isinstance(cand, ast.If) and c in cand.body:
+                blk = cand
+        remembered = blk is not None and any(isinstance(s_, ast.Expr) and isinstance(s_.value, ast.Call) and isinstance(s_.value.func, ast.Attribute)
+                                             and s_.value.func.attr == "append" and ast.unparse(s_.value.func.value) in lists for s_ in blk.body)
+        r.check(remembered, rid, f"{fn.qualname}#skip-remembers@{ast.unparse(blk.test)[:50] if blk is not None else c.lineno}",
+                "a frame is skipped without being stored for re-queueing: it is lost for later reads", loc=f"{fn.module.relpath}:{c.lineno}")
+    brk = [n for n in ast.walk(loops[0]) if isinstance(n, ast.Break)]
+    r.check(not brk, rid, f"{fn.qualname}#no-break", "the receive loop must only be left by return or raise (a break returns as if the awaited frame had arrived)", loc=fn.loc)
+
+
+def reader_loop_total(r: Report, rid: str, fn: FuncInfo, sinks: tuple[str, ...]) -> None:
+    """Reader task: every iteration either hands the frame to a sink (queue put / alive reply) or skips an explicitly unusable frame;
+    the loop is never left except by an exception."""
+    loops = [n for n in walk_no_nested(fn.node) if isinstance(n, ast.While)]
+    if len(loops) != 1:
+        raise AnalysisError(f"{fn.qualname}: reader loop not found")
+    L_ = loops[0]
+    r.check(not [n for n in ast.walk(L_) if isinstance(n, (ast.Break, ast.Return))], rid, f"{fn.qualname}#runs-until-eof",
+            "the reader loop must not be left by break/return: the task would stop delivering frames and answering alive checks while the connection is open", loc=fn.loc)
+    g = CFG(fn.node)
+    heads = [n.id for n in g.nodes.values() if n.kind == "loop" and n.ast is L_]
+    sink_nodes = {n.id for n in g.nodes.values() if n.ast is not None and n.kind == "stmt" and any(s_ in ast.unparse(n.ast) for s_ in sinks)}
+    skip_nodes = {n.id for n in g.nodes.values() if n.kind in ("cond",) and n.ast is not None and ("is None" in ast.unparse(n.ast))}
+    for h in heads:
+        body = g.succ[h][0][0]
+        ok, path = g.must_pass(body, sink_nodes | skip_nodes, {h}, skip_edge=lambda n, b, k: k == "exc")
+        r.check(bool(sink_nodes) and ok, rid, f"{fn.qualname}#every-frame-handled",
+                "a received frame can be dropped without being queued or answered: " + " -> ".join(repr(g.nodes[p]) for p in path[-4:]), loc=fn.loc)
 
 
 def ack_timeout_handler(m: Model, r: Report, rid: str, fn: FuncInfo, ack_call: str) -> None:
